@@ -200,13 +200,13 @@ func (st *runState) client(sys *System, ci int, reqs []Req) {
 		rec := &reqRec{ID: st.next, Req: r, StartT: time.Now()}
 		st.reqs = append(st.reqs, rec)
 		st.mu.Unlock()
-		st.db.SetScript(r.Result)
 		if r.NoDB {
 			sys.Reg.failGets = 1
 		}
 		method, path := r.URL()
 		rec.Path = path
-		ctx, cancel := context.WithCancel(context.Background())
+		res := r.Result
+		ctx, cancel := context.WithCancel(sqlfake.WithScript(context.Background(), &res))
 		if r.CancelUs > 0 {
 			tm := time.AfterFunc(time.Duration(r.CancelUs)*time.Microsecond, func() { rec.Cancelled = true; cancel() })
 			defer tm.Stop()
@@ -255,6 +255,7 @@ func (st *runState) finish(ri *simcheck.RunInfo, sim *simrt.Sim, t0 time.Time, t
 	if !isKilled(sim) {
 		leaked = requestGoroutines(sim)
 	}
+	alive := fmt.Sprint(requestGoroutines(sim))
 	sim.Kill()
 	sim.WaitStopped()
 	synctest.Wait()
@@ -288,7 +289,7 @@ func (st *runState) finish(ri *simcheck.RunInfo, sim *simrt.Sim, t0 time.Time, t
 		}
 		if !r.Returned {
 			if !crashed {
-				add("C12", "request-blocked", "request never returned: "+r.Req.Kind, fmt.Sprintf("req%d %s did not return within the bound %v (simulated now %v); result script %+v", r.ID, r.Path, reqBound(r.Req), time.Since(t0), r.Req.Result))
+				add("C12", "request-blocked", "request never returned: "+r.Req.Kind, fmt.Sprintf("req%d %s did not return within the bound %v (simulated now %v); goroutines of requests still alive: %s; result script %+v", r.ID, r.Path, reqBound(r.Req), time.Since(t0), alive, r.Req.Result))
 			}
 			continue
 		}
